@@ -2,7 +2,7 @@ SPECIFICATION TraceSpec
 CONSTANTS
   Nil = Nil
   Locked = TRUE
-  Canon = TRUE
+  Canon = FALSE
 INVARIANTS
   RightSet
   NoTornRead
